@@ -46,6 +46,7 @@ SCR="$SCR_ROOT/mossverif.$$"
 cleanup() { rm -rf "$BIN" "$RBIN" "$SCR"; }
 trap cleanup EXIT
 build "$BIN"
+rm -f "$VERIF"/replays/"$ID"-* 2>/dev/null
 EXTRA=()
 if needs_race "$ID" || [ "${VERIF_RACE:-}" = 1 ]; then
   RBIN="$VERIF/bin/mosscheck-race.$$"
